@@ -1,7 +1,7 @@
 #!/usr/bin/env python3
 """Store the confirmed seeded changes of the held-out rounds under /verif/seeded/ and record both measurements.
 
-  tools/store_seeds.py            copy /tmp/seed{2,3,4}-out/Cxx/k -> seeded/Cxx-r{2,3,4}-k (patch.diff, demo.py, meta.json)
+  tools/store_seeds.py            copy /tmp/seed{2,3,4,5}-out/Cxx/k -> seeded/Cxx-r{2..5}-k (patch.diff, demo.py, meta.json)
                                   and attach `first_measurement` parsed from notes/logs/seed*-round1*.log
   tools/store_seeds.py --final    run tools/seedtest.py --all-checks on every stored seed (16 at a time) and store the
                                   verdict as `final_version_of_the_checks` in its meta.json
@@ -12,7 +12,7 @@ import glob, json, os, re, shutil, subprocess, sys
 from concurrent.futures import ThreadPoolExecutor
 
 VERIF = os.path.dirname(os.path.dirname(os.path.abspath(__file__)))
-LOGS = {2: ['seed2-round1.log'], 3: ['seed3-round1.log', 'seed3-round1b.log'], 4: ['seed4-round1.log', 'seed4-round1b.log']}
+LOGS = {2: ['seed2-round1.log'], 3: ['seed3-round1.log', 'seed3-round1b.log'], 4: ['seed4-round1.log', 'seed4-round1b.log'], 5: ['seed5-round1.log']}
 NOTE = {'seed3-round1b.log': 'measured while round 7 was already editing the packs (not a clean first measurement)'}
 
 
@@ -40,7 +40,7 @@ def first_measurements():
 def store():
     fm = first_measurements()
     n = 0
-    for rnd in (2, 3, 4):
+    for rnd in (2, 3, 4, 5):
         for d in sorted(glob.glob(f'/tmp/seed{rnd}-out/C*/[0-9]*')):
             if not all(os.path.isfile(os.path.join(d, f)) for f in ('patch.diff', 'demo.py', 'meta.json')):
                 continue
@@ -61,7 +61,7 @@ def store():
                     meta[key] = old[key]
             json.dump(meta, open(os.path.join(dst, 'meta.json'), 'w'), indent=1)
             n += 1
-    print('stored', n, 'seeds of rounds 2-4')
+    print('stored', n, 'seeds of rounds 2-5')
 
 
 def final_one(d):
